@@ -251,6 +251,72 @@ def judge_grid(decl, clauses):
     return txt, None
 
 
+TWO_CLASS_TEXT = """
+package El connector Pin Real v; flow Real i; end Pin; model R Pin p; Pin n; end R; end El;
+package Th connector Pin Real T; Real v; flow Real Phi; end Pin; model C Pin h; end C; end Th;
+model Top El.R r1; El.R r2; Th.C c1; Th.C c2; equation %s end Top;
+"""
+
+
+def judge_two_classes(order):
+    """two connector classes with the same simple name (El.Pin, Th.Pin) and different members in one model"""
+    import pymoca.ast as ast
+    import pymoca.parser
+    from pymoca.tree import flatten
+    cl = ["connect(r1.n, r2.p);", "connect(c1.h, c2.h);"]
+    txt = TWO_CLASS_TEXT % " ".join(cl if order == 0 else cl[::-1])
+    flat = flatten(pymoca.parser.parse(txt), ast.ComponentRef(name="Top")).classes["Top"]
+    index = {}
+
+    def col(name):
+        return index.setdefault(name, len(index))
+
+    def lin(e):
+        if isinstance(e, (ast.ComponentRef, ast.Symbol)):
+            return {col(e.name): 1.0}
+        if isinstance(e, ast.Primary):
+            if float(e.value) != 0:
+                raise ValueError("inhomogeneous")
+            return {}
+        if isinstance(e, ast.Expression):
+            args = [lin(a) for a in e.operands]
+            if e.operator == "-" and len(args) == 1:
+                return {k: -v for k, v in args[0].items()}
+            out = dict(args[0])
+            sg = 1.0 if e.operator == "+" else -1.0
+            for k, v in args[1].items():
+                out[k] = out.get(k, 0.0) + sg * v
+            return out
+        raise ValueError("unexpected term %r" % (e,))
+    R = [{col("r1.n.v"): 1.0, col("r2.p.v"): -1.0}, {col("r1.n.i"): 1.0, col("r2.p.i"): 1.0},
+         {col("c1.h.T"): 1.0, col("c2.h.T"): -1.0}, {col("c1.h.v"): 1.0, col("c2.h.v"): -1.0}, {col("c1.h.Phi"): 1.0, col("c2.h.Phi"): 1.0},
+         {col("r1.p.i"): 1.0}, {col("r2.n.i"): 1.0}]
+    E = []
+    for eq in flat.equations:
+        if isinstance(eq, ast.ConnectClause):
+            return txt, "connect clause left in the flat model"
+        l, r = lin(eq.left), lin(eq.right)
+        for k, v in r.items():
+            l[k] = l.get(k, 0.0) - v
+        E.append(l)
+    unknown = sorted(k for k in index if k not in flat.symbols)
+    if unknown:
+        return txt, "equations over variables the flat model does not have: %s" % unknown
+    n = len(index)
+
+    def mat(rows):
+        M = np.zeros((len(rows), n))
+        for i, row in enumerate(rows):
+            for k, v in row.items():
+                M[i, k] = v
+        return [M[i] for i in range(len(rows))]
+    me, mr = mat(E), mat(R)
+    re_, rr, both = rank(me), rank(mr), rank(me + mr)
+    if not (re_ == rr == both):
+        return txt, "solution spaces differ: rank(flat)=%d rank(reference)=%d rank(both)=%d" % (re_, rr, both)
+    return txt, None
+
+
 def cases(tier, seed):
     rng = np.random.RandomState(seed)
     # curated: chain, star, cycle, merge of separate sets, redundant, outside connectors, nested level
@@ -292,6 +358,15 @@ def main():
         if bad:
             failures.append({"class": "graph", "input": {"model": txt, "flatten": "Top"}, "observed": bad,
                              "expected": "flat equations with the solution space of the connection-set semantics"})
+    for order in (0, 1):
+        n += 1
+        try:
+            txt, bad = judge_two_classes(order)
+        except BaseException as e:  # noqa
+            txt, bad = TWO_CLASS_TEXT, "%s: %s" % (type(e).__name__, str(e)[:200])
+        if bad:
+            failures.append({"class": "graph", "input": {"model": txt, "flatten": "Top"}, "observed": bad,
+                             "expected": "flat equations with the solution space of the connection-set semantics"})
     for ncomp, ntop, clauses, sub in cases(tier, seed):
         n += 1
         seen.add(json.dumps([ncomp, ntop, clauses, sub]))
@@ -307,7 +382,7 @@ def main():
     if payload.get("mode") == "bounded":
         print(json.dumps({"performed": True, "cases": n, "distinct_nontrivial": len(seen), "failures": failures[:10],
                           "rule": "generated Modelica models (connector with 2 potential and 2 flow variables; 1-4 two-pin components; 0-2 top-level connectors; optionally a nested sub-model with its own connect clauses and "
-                                  "two outside connectors) with 8 curated graphs (chain, star, cycle, merge of separate sets, redundant, outside-only, nested) and random graphs of 1-7 clauses, plus 5 graphs over elements of 1-D / 2-D connector arrays and pins of component arrays: flattened by the real code, "
+                                  "two outside connectors) with two same-named connector classes of different packages in one model (both clause orders), 8 curated graphs (chain, star, cycle, merge of separate sets, redundant, outside-only, nested) and random graphs of 1-7 clauses, plus 5 graphs over elements of 1-D / 2-D connector arrays and pins of component arrays: flattened by the real code, "
                                   "equations read as a homogeneous linear system and compared with the reference system by rank(flat)=rank(reference)=rank(both); distinct = distinct (sizes, clause list) tuples",
                           "bound": "%d graphs, <= 12 connectors, <= 12 clauses" % n}))
     else:
